@@ -13,7 +13,7 @@ PROOF_TARGETS = ["C14/Lemmas.vo", "C14/LemWorld.vo"]
 PROPS = ["C14/Props.v"]
 ALLOWED_AXIOMS = []
 IMPL_TIMEOUT = 10.0
-COQ_SHARD = 25
+COQ_SHARD = 12
 
 
 class ExtractError(Exception):
@@ -339,7 +339,15 @@ RULE = ("description sets over ids A..H, dotted ids T.A/T.B/T.U.C and TEXT/NAME:
         "several configurations.  All dictionaries live in a pool and are passed by reference every time they are used; after "
         "every call every access path is observed (get_color of every configuration, accessor attributes and [id] of every "
         "synced palette, the palette just obtained, identity of the global configuration) and every dictionary is compared "
-        "with its original text.  Non-trivial = at least one description with a parent / a session that registers or installs.")
+        "with its original text.  Sessions world:churn-* let the objects the registries are keyed by COME AND GO: 30-60 Palette "
+        "classes made by a factory (type(...), own SYNTAX_DEFAULTS dictionary built with the class, other ids and colours each), "
+        "used with ONE long-lived configuration whose explicit items refer to ids only they define, and forgotten after their last "
+        "use (gc.collect()); 6-10 configurations built, used with the same classes, forgotten and re-built (also as the global one); "
+        "rounds of a new configuration + 3-6 new classes; dictionaries copied for one call; the harness re-creates a configuration / "
+        "dictionary up to 300 times until CPython hands out the address of a forgotten one, and counts per kind how often a new "
+        "object got the address of a dead one (coverage.c14_object_lifetimes).  The model treats every class / configuration made "
+        "as a new one (a forgotten configuration keeps its last colours in the comparison).  "
+        "Non-trivial = at least one description with a parent / a session that registers or installs.")
 TRUSTED_BASE = [
     "gen/C14_Consts.v: _COLORS, the modifier SGR codes and their order in _ColorSequences.make, _MODIFIERS, the shape of "
     "_COLORS_NAMES, the statements of both branches of _ColorConfColorDescr.resolve, DFLT_SYNTAX_ID, BUILT_IN_CONFIG and the "
@@ -996,8 +1004,24 @@ def oracle(case, obs):
     return out
 
 
+STATS = {}
+
+
+def extra_coverage():
+    """objects that came and went in the sessions of the main batch (summed over the sessions): how many Palette classes /
+    configurations / dictionaries were made, how many the harness forgot again, and how often CPython gave the address of
+    a forgotten one to a new object of the same kind (an id()-keyed registry would have confused the two).  NB the
+    unchanged implementation keeps a registered class alive as long as the configuration lives (registered_sources holds
+    the class), so with a long-lived configuration class addresses are only reused when the implementation lets go of them"""
+    return {"c14_object_lifetimes": dict(STATS)}
+
+
 def nontrivial(case, obs):
     if case.get("t") == "world":
+        for key, v in (obs.get("life") or {}).items():
+            STATS[key] = STATS.get(key, 0) + v
+        if obs.get("life"):
+            STATS["sessions_with_lifetimes"] = STATS.get("sessions_with_lifetimes", 0) + 1
         return any(op["k"] in ("setg", "synced", "reg", "use", "regcls") for op in case["ops"])
     batches, _ = _oracle_batches(case)
     if batches is None:
@@ -1257,15 +1281,258 @@ WORLD_WITNESS = [
 ]
 
 
+def _vis_descr(rng, parent=None):
+    """a description with a visible colour of its own: a registration that got lost cannot hide behind an empty one"""
+    r = rng.random()
+    if r < 0.6:
+        col = rng.choice(COLOR_NAMES[1:7])
+    elif r < 0.75:
+        col = "g%d" % rng.randrange(24)
+    elif r < 0.9:
+        col = str(rng.randrange(1, 256))
+    else:
+        col = "(%d,%d,%d)" % (rng.randrange(6), rng.randrange(6), rng.randrange(6))
+    s = col + ("/" + rng.choice(COLOR_NAMES[1:7]) if rng.random() < 0.3 else "")
+    if parent is not None:
+        s = parent + ":" + s
+    m = _rand_mods(rng)
+    return s + (":" + m if m else "")
+
+
+def _rand_churn(rng, sc):
+    """Sessions in which the objects the library keys its registries by COME AND GO: Palette classes made by a factory
+    (`type(...)`), used with a long-lived configuration and dropped (flag `eph`: the harness creates the class at the
+    first call that names it and forgets it after the last one, then gc.collect()), configuration objects dropped and
+    re-created (`dropc` on the call after which the harness forgets them), dictionaries built for one call (`fresh`:
+    a deep copy is passed and dropped).  CPython hands the addresses of the dead objects to the next ones, so a
+    registry that remembers id()/hash() values instead of the objects confuses a new object with a dead one.
+    churn-cls: 30-60 classes in a row against ONE configuration; churn-conf: 6-10 configurations one after the other,
+    the same classes; churn-both: rounds of a new configuration + a few new classes, everything dropped."""
+    objs, classes, ops = [], [], []
+    st = {"nconf": 1, "glob": 0, "auto": set(), "nsynced": 0, "todrop": []}
+
+    def add_obj(o):
+        objs.append(o)
+        return len(objs) - 1
+
+    def shuffled(flat, may_nest=True):
+        items = list(flat.items())
+        rng.shuffle(items)
+        flat = dict(items)
+        return _nest(flat, rng) if may_nest and rng.random() < 0.4 else flat
+
+    def add_cls(eph, parents=(), foreign=()):
+        k = len(classes) + 1
+        ids = _class_ids(k)[:rng.choice([1, 2, 2, 3])]
+        flat = {ids[0]: _vis_descr(rng)}
+        for a, b in zip(ids[1:], ids):
+            flat[a] = _vis_descr(rng, b) if rng.random() < 0.5 else _rand_descr(rng, rng.choice([b, ids[0], None]))
+        if foreign and rng.random() < 0.2:
+            flat[rng.choice(list(foreign))] = _vis_descr(rng)          # an id somebody else may have defined already
+        d = add_obj(shuffled(flat))
+        acc = [["a0", ids[0]]]
+        for n in range(1, rng.choice([1, 2, 3])):
+            acc.append(["a%d" % n, rng.choice(ids * 2 + list(foreign) + ["KEYWORD"])])
+        classes.append({"d": d, "parents": list(parents), "acc": acc, "g": rng.random() < 0.08, "eph": eph})
+        return k
+
+    def op_new(init, fresh=None, nc=False):
+        ops.append({"k": "new", "nc": nc, "init": init, "builtin": None})
+        if rng.random() < 0.5 if fresh is None else fresh:
+            ops[-1]["fresh"] = True
+        if st["todrop"]:
+            ops[-1]["dropb"] = [c for c in st["todrop"] if c != st["glob"]]
+            st["todrop"] = []
+        st["nconf"] += 1
+        return st["nconf"] - 1
+
+    def op_setg(c):
+        """install configuration c (None: a new default one); an automatically created one that stops being global is dropped"""
+        ops.append({"k": "setg", "c": c})
+        old = st["glob"]
+        if c is None:
+            st["nconf"] += 1
+            st["glob"] = st["nconf"] - 1
+            st["auto"].add(st["glob"])
+        else:
+            st["glob"] = c
+        if old in st["auto"] and old != st["glob"]:
+            st["auto"].discard(old)
+            ops[-1].setdefault("dropc", []).append(old)
+
+    def cref(t):
+        """how a call names configuration t"""
+        return None if t == st["glob"] and rng.random() < 0.6 else t
+
+    small = [add_obj(shuffled({i: _rand_descr(rng, rng.choice([None, "KEYWORD", "NAME"])) for i in rng.sample(W_FREE, 2)}, False))
+             for _ in range(2)]
+
+    def side_ops(t):
+        r = rng.random()
+        if r < 0.15:
+            ops.append({"k": "pal", "c": cref(t)})
+        elif r < 0.27:
+            ops.append({"k": "reg", "c": cref(t), "items": rng.choice(small), "fresh": True})
+
+    def eph_block(t, n, perm):
+        """n classes made, used with configuration t and forgotten, one after the other"""
+        again = []
+        prev = []
+        for j in range(n):
+            k = len(classes) + 1
+            parents = []
+            r = rng.random()
+            if perm and r < 0.12:
+                parents = [rng.choice(perm)]
+            elif prev and r < 0.2:
+                parents = [prev[-1]]
+            add_cls(True, parents, foreign=[_class_ids(p)[0] for p in prev[-2:]])
+            for kk in again:
+                ops.append({"k": "use", "cls": kk, "c": cref(t), "via": rng.choice(["ctor", "user"])})
+            again = []
+            r = rng.random()
+            if r < 0.05 and t == st["glob"] and st["nsynced"] < 2:
+                st["nsynced"] += 1
+                ops.append({"k": "synced", "cls": k})
+            elif r < 0.2:
+                ops.append({"k": "regcls", "cls": k, "c": cref(t)})
+                if rng.random() < 0.6:
+                    ops.append({"k": "use", "cls": k, "c": cref(t), "via": "ctor"})
+            else:
+                ops.append({"k": "use", "cls": k, "c": cref(t), "via": rng.choice(["ctor", "ctor", "user"])})
+            side_ops(t)
+            if rng.random() < 0.15:
+                again.append(k)
+            prev.append(k)
+        return prev
+
+    def refs_init(ks, extra=()):
+        """explicit items of a configuration that refer to ids only the classes ks will define, + a few overrides"""
+        flat = {}
+        for k in ks:
+            flat["S%d" % k] = _vis_descr(rng, "P%d.A" % k) if rng.random() < 0.6 else _rand_descr(rng, "P%d.A" % k)
+        for k in extra:
+            flat["P%d.A" % k] = _vis_descr(rng)
+        if rng.random() < 0.5:
+            flat["KEYWORD"] = _vis_descr(rng)
+        return flat
+
+    watch = {"KEYWORD", rng.choice(["TEXT", "NAME", "X1"])}
+    if sc == "churn-cls":
+        perm = [add_cls(False) for _ in range(rng.choice([0, 1, 2]))]
+        neph = rng.choice([30, 30, 36, 45, 60])
+        first = len(classes) + 1
+        ks = rng.sample(range(first, first + neph), 6)
+        init = refs_init(ks, extra=rng.sample(range(first, first + neph), 2))
+        mode = rng.choice(["private", "private", "global-new", "global-default"])
+        if mode == "global-default":
+            t = 0
+            ops.append({"k": "reg", "c": None, "items": add_obj(shuffled(init, False))})
+        else:
+            t = op_new(add_obj(shuffled(init)))
+            if mode == "global-new":
+                op_setg(t)
+        for k in perm:
+            if rng.random() < 0.5:
+                ops.append({"k": rng.choice(["use", "synced"]), "cls": k, "c": cref(t), "via": "ctor"})
+        eph_block(t, neph, perm)
+        watch |= {"S%d" % k for k in ks[:3]} | {"P%d.A" % k for k in ks[3:5]}
+    elif sc == "churn-conf":
+        perm = [add_cls(False, [p for p in range(1, k) if rng.random() < 0.3]) for k in range(1, rng.choice([1, 2, 3]) + 1)]
+        for k in perm:
+            if rng.random() < 0.3:
+                ops.append({"k": "synced", "cls": k})
+        watch |= {"P%d.A" % k for k in perm} | {"S%d" % perm[0]}
+        for _ in range(rng.choice([6, 8, 10])):
+            k = rng.choice(perm)
+            init = refs_init([perm[0]] if rng.random() < 0.5 else [], extra=[k] if rng.random() < 0.8 else [])
+            c = op_new(add_obj(shuffled(init)), nc=rng.random() < 0.05)
+            was_global = rng.random() < 0.3
+            if was_global:
+                op_setg(c)
+            for _ in range(rng.choice([1, 2, 3])):
+                r = rng.random()
+                if r < 0.6:
+                    ops.append({"k": "use", "cls": rng.choice([k, k, rng.choice(perm)]), "c": cref(c),
+                                "via": rng.choice(["ctor", "ctor", "user"])})
+                elif r < 0.75:
+                    ops.append({"k": "regcls", "cls": rng.choice(perm), "c": cref(c)})
+                else:
+                    side_ops(c)
+            if was_global:
+                op_setg(rng.choice([None, 0]))
+            r = rng.random()
+            if r < 0.6:
+                st["todrop"].append(c)          # forgotten when the next configuration is built
+            elif r < 0.85 and ops[-1]["k"] != "new":
+                ops[-1].setdefault("dropc", []).append(c)
+    else:
+        perm = [add_cls(False) for _ in range(rng.choice([0, 1]))]
+        for r in range(rng.choice([6, 7, 8])):
+            n = rng.choice([3, 4, 5, 6])
+            first = len(classes) + 1
+            ks = rng.sample(range(first, first + n), 2)
+            c = op_new(add_obj(shuffled(refs_init(ks, extra=[rng.randrange(first, first + n)]))))
+            was_global = rng.random() < 0.25
+            if was_global:
+                op_setg(c)
+            eph_block(c, n, perm)
+            if was_global:
+                op_setg(rng.choice([None, 0]))
+            r = rng.random()
+            if r < 0.5:
+                st["todrop"].append(c)
+            elif r < 0.9 and ops[-1]["k"] != "new":
+                ops[-1].setdefault("dropc", []).append(c)
+            if r < 2:
+                watch |= {"S%d" % ks[0]} | ({"P%d.A" % ks[1]} if r == 0 else set())
+    return {"t": "world", "sc": sc, "objs": objs, "classes": classes, "watch": sorted(watch), "ops": ops}
+
+
 def _world_cases(rng, n):
     out = []          # WORLD_WITNESS is in corpus/C14/witnesses.json
     for _ in range(n):
         out.append(_rand_world(rng))
+    # objects that come and go (generated after the others, then spread among them: their outputs are long)
+    churn = []
+    for j in range(max(6, n // 20)):
+        churn.append(_rand_churn(rng, ["churn-cls", "churn-conf", "churn-both"][j % 3]))
+    gap = max(1, len(out) // (len(churn) + 1))
+    for j, c in enumerate(churn):
+        out.insert(min(len(out), (j + 1) * gap + j), c)
     return out
+
+
+HUNT = 300
+
+
+class _IllFormedCase(BaseException):
+    """(a shrink candidate) - reported as a harness crash, never as an observation"""
+
+
+def _class_lifetimes(case):
+    """{class index: index of the last call for which the harness has to hold the class} for the classes flagged `eph`
+    (made by a factory at the first call that names them; a class named by a `synced` call lives on in the module)"""
+    last = {}
+    keep = set()
+
+    def need(k, n, forever):
+        if k == 0:
+            return
+        last[k] = n
+        if forever:
+            keep.add(k)
+        for p in case["classes"][k - 1]["parents"]:
+            need(p, n, forever)
+    for n, op in enumerate(case["ops"]):
+        if op["k"] in ("synced", "use", "regcls"):
+            need(op["cls"], n, op["k"] == "synced")
+    return {k: n for k, n in last.items() if case["classes"][k - 1].get("eph") and k not in keep}
 
 
 def _impl_world(case):
     import copy
+    import gc
     import importlib
     import ak.color
     C = importlib.reload(ak.color)          # the module state of a fresh import
@@ -1274,19 +1541,95 @@ def _impl_world(case):
     watch = case["watch"]
     classes = [C.GlobalPalette]
     accs = [list(_consts()["accessors"])]
-    for n, cl in enumerate(case["classes"]):
+    # objects that come and go: what the harness has forgotten (kind -> ids) and how often CPython gave such an
+    # address to a new object of the kind (two live objects never share an id: an id seen again proves the old one died)
+    gone = {"cls": set(), "conf": set(), "dict": set()}
+    life = {"cls_made": 0, "cls_dropped": 0, "cls_id_reused": 0, "conf_made": 0, "conf_dropped": 0, "conf_id_reused": 0,
+            "dict_made": 0, "dict_dropped": 0, "dict_id_reused": 0}
+    eph_last = _class_lifetimes(case)
+    eph_dicts = {}          # class index -> (pool index, the copy that is the class's SYNTAX_DEFAULTS)
+
+    def born(kind, o):
+        life[kind + "_made"] += 1
+        if id(o) in gone[kind]:
+            gone[kind].discard(id(o))
+            life[kind + "_id_reused"] += 1
+
+    def forget(kind, o):
+        life[kind + "_dropped"] += 1
+        gone[kind].add(id(o))
+
+    def make_class(k):
+        cl = case["classes"][k - 1]
         ns = {}
         if cl["d"] is not None:
-            ns["SYNTAX_DEFAULTS"] = objs[cl["d"]]
+            d = objs[cl["d"]]
+            if k in eph_last:
+                d = hunt("dict", lambda: copy.deepcopy(objs[cl["d"]]))          # the factory builds the defaults too
+                eph_dicts[k] = (cl["d"], d)
+            ns["SYNTAX_DEFAULTS"] = d
         if cl["parents"]:
-            ns["PARENT_PALETTES"] = [classes[p] for p in cl["parents"]]
+            ns["PARENT_PALETTES"] = [get_class(p) for p in cl["parents"]]
         for a, sid in cl["acc"]:
             ns[a] = C.ConfColor(sid)
-        classes.append(type("P%d" % (n + 1), (C.GlobalPalette if cl["g"] else C.Palette,), ns))
+        c = type("P%d" % k, (C.GlobalPalette if cl["g"] else C.Palette,), ns)
+        if k in eph_last:
+            born("cls", c)
+        return c
+
+    def get_class(k):
+        if classes[k] is None:
+            classes[k] = make_class(k)
+        return classes[k]
+
+    for n, cl in enumerate(case["classes"]):
+        classes.append(None)
         accs.append(_full_acc(cl))
+    for k in range(1, len(classes)):
+        if k not in eph_last:
+            get_class(k)
     is_g = [True] + [bool(cl["g"]) for cl in case["classes"]]
     confs = [C.get_global_colors_config()]
+    frozen = {}          # configuration the harness has forgotten -> its colours when last seen
     synced = [(C.global_palette, 0)]
+
+    def hunt(kind, make):
+        """make() - and, when objects of the kind were forgotten before, again (at most HUNT times, the earlier results
+        held meanwhile so that the allocator moves on) until CPython hands out one of their addresses: an object built
+        again and again by a program meets an old address sooner or later, the session makes it sooner"""
+        o = make()
+        held = []
+        while gone[kind] and id(o) not in gone[kind] and len(held) < HUNT:
+            held.append(o)
+            o = make()
+        del held
+        born(kind, o)
+        return o
+
+    def drop_confs(which, rows):
+        """the caller forgets these configurations (the global one cannot be forgotten); their last colours stay on record"""
+        n = 0
+        for i in which:
+            if confs[i] is not None and confs[i] is not C.get_global_colors_config():
+                frozen[i] = rows[i]
+                forget("conf", confs[i])
+                confs[i] = None
+                n += 1
+        return n
+
+    def arg(i, fresh):
+        """the dictionary objs[i] itself, or a copy made for this one call"""
+        if not fresh:
+            return objs[i]
+        return hunt("dict", lambda: copy.deepcopy(objs[i]))
+
+    def done(i, d):
+        """a dictionary made for one call: compared with the original, then forgotten"""
+        if d is not objs[i]:
+            if _canon(d) != orig[i]:
+                mutated.add(i)
+            forget("dict", d)
+    mutated = set()
 
     def fmt(f):
         return str(f("x"))
@@ -1311,11 +1654,14 @@ def _impl_world(case):
     def snapshot():
         g = C.get_global_colors_config()
         now = [_canon(o) for o in objs] + [_canon(C.ColorsConfig.BUILT_IN_CONFIG)]
-        return [index_of(g),
-                [[fmt(c.get_color(i)) for i in watch] for c in confs],
+        for k, (i, d) in eph_dicts.items():
+            if _canon(d) != orig[i]:
+                mutated.add(i)
+        rows = [[fmt(c.get_color(i)) for i in watch] if c is not None else frozen[n] for n, c in enumerate(confs)]
+        return [index_of(g), rows,
                 [[attrs(p, k), [fmt(p[i]) for i in watch] if is_g[k] else None, ref_attrs(g, k),
                   None if is_g[k] else [fmt(p.get_color(a)) for a, _ in accs[k]], report_ok(p, k)] for p, k in synced],
-                [n for n, (a, b) in enumerate(zip(orig, now)) if a != b]]
+                sorted(set(n for n, (a, b) in enumerate(zip(orig, now)) if a != b) | mutated)]
 
     steps = [["ok", 0, [], None] + snapshot()]
     for n, op in enumerate(case["ops"]):
@@ -1325,11 +1671,22 @@ def _impl_world(case):
             conf = None
             if k != "new" and k != "synced" and op.get("c") is not None:
                 conf = confs[op["c"]]
+                if conf is None:
+                    raise _IllFormedCase("the case names a configuration it has dropped")
             if k == "new":
                 cls = C.ColorsConfig
                 if op["builtin"] is not None:
                     cls = type("Cfg", (C.ColorsConfig,), {"BUILT_IN_CONFIG": objs[op["builtin"]], "__slots__": ()})
-                c = cls(no_color=op["nc"]) if op["init"] is None else cls(objs[op["init"]], no_color=op["nc"])
+                d = None if op["init"] is None else arg(op["init"], op.get("fresh"))
+                # `dropb`: the caller lets go of these configurations right before it builds the new one (nothing
+                # happens in between: the allocator gives the new object the old address if it can)
+                if drop_confs(op.get("dropb", ()), steps[-1][5]):
+                    gc.collect()
+                if d is None:
+                    c = hunt("conf", lambda: cls(no_color=op["nc"]))
+                else:
+                    c = hunt("conf", lambda: cls(d, no_color=op["nc"]))
+                    done(op["init"], d)
                 confs.append(c)
                 idx = len(confs) - 1
             elif k == "setg":
@@ -1337,12 +1694,13 @@ def _impl_world(case):
                 if conf is None:
                     g = C.get_global_colors_config()
                     if index_of(g) < 0:
+                        born("conf", g)
                         confs.append(g)
                     idx = index_of(g)
                 else:
                     idx = op["c"]
             elif k == "synced":
-                p = classes[op["cls"]](synced=True)
+                p = get_class(op["cls"])(synced=True)
                 j = [n for n, (q, _) in enumerate(synced) if q is p]
                 if not j:
                     synced.append((p, op["cls"]))
@@ -1350,15 +1708,17 @@ def _impl_world(case):
                 idx = j[0]
                 pal = attrs(p, op["cls"])
             elif k == "reg":
-                (conf if conf is not None else C.get_global_colors_config()).add_new_items(objs[op["items"]], "later %d" % n)
+                d = arg(op["items"], op.get("fresh"))
+                (conf if conf is not None else C.get_global_colors_config()).add_new_items(d, "later %d" % n)
+                done(op["items"], d)
             elif k == "regcls":
-                classes[op["cls"]].register_in_colors_conf(conf if conf is not None else C.get_global_colors_config())
+                get_class(op["cls"]).register_in_colors_conf(conf if conf is not None else C.get_global_colors_config())
             elif k == "use":
                 if op["via"] == "user":
-                    U = type("U%d" % n, (C.PaletteUser,), {"PALETTE_CLASS": classes[op["cls"]]})
+                    U = type("U%d" % n, (C.PaletteUser,), {"PALETTE_CLASS": get_class(op["cls"])})
                     p = U._mk_palette(None, False, conf)
                 else:
-                    p = classes[op["cls"]](conf) if conf is not None else classes[op["cls"]]()
+                    p = get_class(op["cls"])(conf) if conf is not None else get_class(op["cls"])()
                 pal = attrs(p, op["cls"])
                 the_conf = conf if conf is not None else C.get_global_colors_config()
                 extra = [ref_attrs(the_conf, op["cls"]),
@@ -1370,10 +1730,27 @@ def _impl_world(case):
                 pal = attrs(p, 0)
                 extra = [ref_attrs(the_conf, 0), [fmt(p[i]) for i in watch], [fmt(the_conf.get_color(i)) for i in watch]]
             steps.append(["ok", idx, pal, extra] + snapshot())
+            # the caller lets go of what it does not need any more: the palette just obtained, classes made by a
+            # factory after their last use, configurations the case says are dropped here
+            p = U = conf = the_conf = c = g = cls = d = None
+            dropped = False
+            for kk in [kk for kk, last in eph_last.items() if last == n and classes[kk] is not None]:
+                forget("cls", classes[kk])
+                classes[kk] = None
+                if kk in eph_dicts:
+                    forget("dict", eph_dicts.pop(kk)[1])
+                dropped = True
+            if drop_confs(op.get("dropc", ()), steps[-1][5]):
+                dropped = True
+            if dropped:
+                gc.collect()
         except Exception as e:
             steps.append(["err", SX.exc_name(e)])
             break
-    return {"steps": steps}
+    out = {"steps": steps}
+    if any(life.values()):
+        out["life"] = life
+    return out
 
 
 def _cref_term(c):
@@ -1668,7 +2045,9 @@ LEVEL_TEXT = ("Full (about the model): resolve_correct (for ALL histories of reg
               "(only 'accepted => well-formed colours' is proved), make_report, compound and no_color palettes, the cache of "
               "non-synced palettes of user classes (modelled, compared, not proved current), that the calls of a session do not "
               "raise (the session theorems are conditional on normal return; the re-entrancy AssertionError repaired by a35bf60 "
-              "is reproduced by the model from the statement shape of register_in_colors_conf), that no argument dictionary is "
+              "is reproduced by the model from the statement shape of register_in_colors_conf), that registration goes by the identity of LIVE objects (the model "
+              "numbers the classes / configurations of a session, every one made is a new one; sessions world:churn-* create and drop "
+              "30-60 classes, configurations and dictionaries so that addresses are re-used), that no argument dictionary is "
               "modified (arguments are values in the model: a dictionary used twice has the same contents; the harness passes "
               "every dictionary by reference, re-uses it and compares it with its original after every call), non-ASCII input.")
 LEVEL_NOTE = ("Trusted: Coq kernel + vm_compute; the hand model's fidelity (checked by correspondence, not proved); the ast "
